@@ -974,13 +974,27 @@ func runST(id string, c *Case) string {
 	if c.Kind == "oci" || strings.HasPrefix(c.Kind, "olim") {
 		final += fmt.Sprintf(" I=%d", e.ingest())
 	}
-	// every stored blob of a digest-addressed store hashes to its name
-	if c.Kind == "oci" {
-		for _, l := range e.listing() {
-			_ = l
+	// final sweep: every descriptor of the history is queried again on the final state
+	var sweep []string
+	for _, p := range c.Pushes {
+		d := descOf(p)
+		xs, _ := existsStr(e.st, d)
+		var fb []byte
+		var ferr error
+		if pv := guard(func() { fb, ferr = content.FetchAll(ctx, e.st, d) }); pv != nil {
+			fail(id, "size-panic", fmt.Sprintf("FetchAll panicked for Size %d: %v", p.SZ, pv), c)
+			return "PANIC"
 		}
+		fobs := errEnum(ferr)
+		if ferr == nil {
+			fobs = "OK/" + dstr(fb)
+			if !matches(fb, p.DG, p.SZ) {
+				fail(id, "fetchall-accepted-bad", "final sweep: FetchAll returned bytes not matching the descriptor", c)
+			}
+		}
+		sweep = append(sweep, "X"+xs+"/F"+fobs)
 	}
-	return strings.Join(obs, " ") + " " + final
+	return strings.Join(obs, " ") + " " + final + " Q=" + strings.Join(sweep, ",")
 }
 
 // ---------------------------------------------------------------- concurrent pushes of one digest (oracle only)
@@ -1548,8 +1562,8 @@ func genHistory(r *common.Rand, kind string) *Case {
 func genSingle(r *common.Rand, op string) *Case {
 	p := genPush(r, genData(r))
 	c := &Case{Op: op, Lim: "-", Pushes: []Push{p}}
-	if r.Chance(1, 6) {
-		c.Lim = strconv.FormatInt(p.SZ+int64(r.Intn(3))-1, 10)
+	if r.Chance(1, 5) && p.SZ < hugeSize {
+		c.Lim = strconv.FormatInt(common.Pick(r, []int64{0, 1, p.SZ - 2, p.SZ - 1, p.SZ, p.SZ + 1, p.SZ + 2, 1 << 20}), 10)
 	}
 	switch op {
 	case "CB":
